@@ -1,10 +1,11 @@
 #!/bin/sh
-# Builds the harness test binaries once from files on disk (offline). Checks rebuild
-# incrementally from /repo's working tree on every run, so this only warms the cache.
-set -e
-cd "$(dirname "$0")/harness"
+# Warms the Go build cache for the harness packages (offline; files on disk only).
+# Every check rebuilds what it needs from /repo's working tree on each run, so a
+# failure to pre-build one package here is reported but does not fail the setup.
+cd "$(dirname "$0")/harness" || exit 1
 export GOFLAGS=-mod=mod GOPROXY=off GOTOOLCHAIN=auto
 unset GOSUMDB
-go vet -tags verif ./internal/... >/dev/null 2>&1 || true
-go test -tags verif -count=1 -run '^$' ./props/... >/dev/null
+for d in props/*/; do
+  go test -tags verif -count=1 -run '^$' "./$d" >/dev/null 2>&1 || echo "warning: pre-build of $d failed (checks rebuild on demand)"
+done
 echo setup ok
